@@ -39,7 +39,16 @@ func verifDoc2() (*openapi2.T, map[string]bool) {
 	}
 	post := &openapi2.Operation{OperationID: "postItem", Responses: map[string]*openapi2.Response{"201": {Description: "created"}}}
 	post.Parameters = append(post.Parameters, &openapi2.Parameter{Name: "id", In: "path", Required: true, Type: &openapi3.Types{"integer"}})
-	switch verifChoose("bodyKind", 3) {
+	switch verifChoose("bodyKind", 4) {
+	case 3:
+		// a shared (document-level) form parameter used by reference
+		feat["sharedForm"] = true
+		post.Consumes = []string{"application/x-www-form-urlencoded"}
+		if doc.Parameters == nil {
+			doc.Parameters = map[string]*openapi2.Parameter{}
+		}
+		doc.Parameters["SF"] = &openapi2.Parameter{Name: "sf", In: "formData", Required: verifNondetBool("sfRequired"), Type: &openapi3.Types{"string"}, MinLength: minLen}
+		post.Parameters = append(post.Parameters, &openapi2.Parameter{Ref: "#/parameters/SF"})
 	case 1:
 		feat["body"] = true
 		post.Consumes = []string{"application/json"}
@@ -110,7 +119,7 @@ func verifNoV3Refs(doc *openapi2.T) bool {
 	return ok
 }
 
-//verif:harness id=C17 tier=quick,thorough witness=end bounds="whole documents in the convertible fragment: one path with GET+POST, path/query/shared parameters, one body or two formData parameters (required flags, minLength, maximum symbolic), shared response with header, definitions by reference, apiKey/basic/oauth2 (4 flows); ToV3 result passes the real Validate and has the same paths, methods, operation ids, parameters and constraints; FromV3 of it describes the same API with OpenAPI 2 references only"
+//verif:harness id=C17 tier=quick,thorough witness=end bounds="whole documents in the convertible fragment: one path with GET+POST, path/query/shared parameters, one body, two formData parameters or a shared formData parameter by reference (required flags, minLength, maximum symbolic), shared response with header, definitions by reference, apiKey/basic/oauth2 (4 flows); ToV3 result passes the real Validate and has the same paths, methods, operation ids, parameters and constraints; FromV3 of it describes the same API with OpenAPI 2 references only"
 func verifH_C17_document() {
 	doc2, feat := verifDoc2()
 	doc3, err := ToV3(doc2)
@@ -230,6 +239,23 @@ func verifH_C17_document() {
 		if ba != nil && bb != nil {
 			verifAssert(ba.Required == fa.Required && bb.Required == fb.Required, "C17 back: form parameters keep their requiredness")
 		}
+	}
+	if feat["sharedForm"] {
+		// the shared form parameter is still a form parameter of the operation, inline or by a reference that resolves
+		var got *openapi2.Parameter
+		for _, p := range bpi.Post.Parameters {
+			if p.Ref != "" {
+				name := strings.TrimPrefix(p.Ref, "#/parameters/")
+				if q := back.Parameters[name]; q != nil && q.Name == "sf" {
+					got = q
+				}
+			} else if p.Name == "sf" {
+				got = p
+			}
+		}
+		verifKnown("C17-shared-form-parameter-dangling", true)
+		verifAssert(got != nil && got.In == "formData" && got.MinLength == doc2.Parameters["SF"].MinLength && got.Required == doc2.Parameters["SF"].Required, "C17 back: a shared form parameter comes back as a form parameter the operation can reach")
+		verifKnown("C17-shared-form-parameter-dangling", false)
 	}
 	if feat["security"] {
 		bs, ss2 := back.SecurityDefinitions, doc2.SecurityDefinitions
